@@ -58,13 +58,28 @@ Proof. exact dmatch_iff. Qed.
 
 (* a compiled pattern anchored at both ends (case) accepts exactly the strings POSIX notation denotes; compilation fails exactly for invalid patterns *)
 Theorem case_pattern_matches_iff_denoted :
-  forall (p : list pchar) (a : ast) (s : str), parse_pattern p = Some a -> single_width a = true -> match compile case_config p with | COk b => pat_is_match case_config b s = true <-> Matches a s | CErr _ => valid_ast a = false | CUnsup | CFuel => False end.
-Proof. exact case_pattern_correct. Qed.
+  forall (p : list pchar) (a : ast) (s : str), parse_pattern p = Some a -> plain_complements a = true -> match compile case_config p with | COk b => pat_is_match case_config b s = true <-> Matches a s | CErr _ => valid_ast a = false | CUnsup | CFuel => False end.
+Proof. exact case_pattern_correct_plain. Qed.
 
 (* the four forms # ## % %% remove exactly the shortest / longest matching prefix / suffix (find for three of them, the rfind loop for %) *)
 Theorem trim_forms_remove_shortest_longest :
   forall (side : trim_side) (len : trim_length) (p : list pchar) (a : ast) (v : str), parse_pattern p = Some a -> single_width a = true -> exists out : str, trim_model side len p v = Some out /\ TrimSpec side len a v out.
 Proof. exact trim_correct. Qed.
+
+(* oracle soundness (Pattern stream): under every configuration without the period rule the three oracle clauses accept the model's is_match / find / rfind, for the literal fast path and for the regex path; the rfind loop never runs out of fuel *)
+Theorem pattern_oracle_accepts_model :
+  forall (cfg : config) (p : list pchar) (a : ast) (text : str), literal_period cfg = false -> parse_pattern p = Some a -> single_width a = true -> let tbl := table_of cfg a text in match compile cfg p with | COk b => oracle_is_match tbl (pat_is_match cfg b text) = true /\ oracle_find cfg tbl (pat_find cfg b text) = true /\ match pat_rfind cfg b text with | FSome x y => oracle_rfind cfg tbl (Some (x, y)) = true | FNone => oracle_rfind cfg tbl None = true | FFuel => False end | CErr _ => tbl = [] | CUnsup | CFuel => False end.
+Proof. exact pattern_oracle_accepts_model. Qed.
+
+(* oracle soundness (trim stream): the executable form of the trim specification accepts what the model computes *)
+Theorem trim_oracle_accepts_model :
+  forall (side : trim_side) (len : trim_length) (p : list pchar) (a : ast) (v : str), parse_pattern p = Some a -> single_width a = true -> exists out : str, trim_model side len p v = Some out /\ str_eqb out (spec_trim side len a v) = true.
+Proof. exact trim_oracle_accepts_model. Qed.
+
+(* the executable min / max over matching splits is the declarative shortest / longest prefix / suffix *)
+Theorem spec_trim_computes_the_specification :
+  forall (side : trim_side) (len : trim_length) (a : ast) (v out : str), TrimSpec side len a v out -> spec_trim side len a v = out.
+Proof. exact spec_trim_sound. Qed.
 
 (* a quoted character at the top level is a literal character whatever it is *)
 Theorem literal_head_is_literal :
@@ -95,6 +110,11 @@ Proof. exact case_first_match. Qed.
 Theorem case_with_breaks_runs_only_that_item :
   forall (subject : str) (items : list (list (list pchar) * continuation)) (sitems : list (list ast)) (idx : nat), Forall2 (fun it sit => item_parsed (fst it) sit) items sitems -> Forall (fun it => snd it = CBreak) items -> case_run subject items idx false = Some match first_matching subject sitems idx with Some i => [i] | None => [] end.
 Proof. exact case_break_only. Qed.
+
+(* for every mix of ;; ;& ;;& the bodies that run are the ones the terminators prescribe *)
+Theorem case_bodies_follow_terminators :
+  forall (subject : str) (items : list (list (list pchar) * continuation)) (sitems : list (list ast * continuation)) (idx : nat) (falling : bool), Forall2 (fun it sit => item_parsed (fst it) (fst sit) /\ snd it = snd sit) items sitems -> case_run subject items idx falling = Some (spec_case_run subject sitems idx falling).
+Proof. exact case_run_spec. Qed.
 
 (* F8: with a two-character collating symbol ${v#p} need not remove the shortest prefix ([[.ch.]c]h on chh) *)
 Theorem prefix_shortest_multichar_refuted :
@@ -128,12 +148,16 @@ Print Assumptions lazy_find_is_shortest.
 Print Assumptions matcher_decides_denotation.
 Print Assumptions case_pattern_matches_iff_denoted.
 Print Assumptions trim_forms_remove_shortest_longest.
+Print Assumptions pattern_oracle_accepts_model.
+Print Assumptions trim_oracle_accepts_model.
+Print Assumptions spec_trim_computes_the_specification.
 Print Assumptions literal_head_is_literal.
 Print Assumptions quoted_pattern_matches_itself.
 Print Assumptions quoted_chars_are_literal.
 Print Assumptions unclosed_bracket_is_literal.
 Print Assumptions case_runs_first_matching_item.
 Print Assumptions case_with_breaks_runs_only_that_item.
+Print Assumptions case_bodies_follow_terminators.
 Print Assumptions prefix_shortest_multichar_refuted.
 Print Assumptions prefix_longest_multichar_refuted.
 Print Assumptions complement_nonascii_symbol_refuted.
